@@ -312,3 +312,54 @@ func ZZValidate(decls map[string]*Decl) *Decl { return zzValidate(decls) }
 var ZZFuncs = zzFuncs
 
 func ZZRT(s string) *resultType { return zzRT(s) }
+
+// zzFixedRecord: <T><A><v>a1</v><A><v> </v></A></A><B>t</B></T>
+func zzFixedRecord() *idr.Node {
+	root := idr.CreateNode(idr.DocumentNode, "")
+	t := zzElem(root, "T")
+	a1 := zzElem(t, "A")
+	zzLeaf(a1, "v", "a1")
+	zzLeaf(zzElem(a1, "A"), "v", " ")
+	zzLeaf(t, "B", "t")
+	return t
+}
+
+// C14ParTransform: two goroutines transform their own records over one shared validated
+// declaration tree, with cold shared caches (xpath expression LRU), for every interleaving of
+// the synchronisation operations within the preemption bound: no data race on anything the
+// threads share, and each thread's result equals the serial result for its record.
+func C14ParTransform() {
+	zz.MapOrder(0)
+	k := zz.NondetChoice("schema", zzNumSchemas)
+	if f := zz.Param("schema", -1); f >= 0 {
+		zz.Assume(k == f)
+	}
+	fo := zzValidate(zzSchema(k))
+	recA := zzRecord()
+	var recB *idr.Node
+	if zz.Param("SYMB", 0) == 1 {
+		recB = zzRecord()
+	} else {
+		recB = zzFixedRecord()
+	}
+	iters := zz.Stress(30)
+	for it := 0; it < iters; it++ {
+		var pa, pb interface{}
+		var ea, eb error
+		zz.Par(func() {
+			pa, ea = NewParseCtx(&transformctx.Ctx{}, zzFuncs, nil).ParseNode(recA, fo)
+		}, func() {
+			pb, eb = NewParseCtx(&transformctx.Ctx{}, zzFuncs, nil).ParseNode(recB, fo)
+		})
+		zz.Cover("joined")
+		sa, sea := NewParseCtx(&transformctx.Ctx{}, zzFuncs, nil).ParseNode(recA, fo)
+		sb, seb := NewParseCtx(&transformctx.Ctx{}, zzFuncs, nil).ParseNode(recB, fo)
+		zz.Assert((ea == nil) == (sea == nil) && (eb == nil) == (seb == nil), "concurrent run: same success or failure as alone")
+		if ea == nil && sea == nil {
+			zz.Assert(zzDeepEq(pa, sa), "thread A: result equals the serial result")
+		}
+		if eb == nil && seb == nil {
+			zz.Assert(zzDeepEq(pb, sb), "thread B: result equals the serial result")
+		}
+	}
+}
